@@ -13,20 +13,20 @@ theorem symName_indexed : symName? "extract" = some "extract" ∧ symName? "zero
     ∧ symName? "sign_extend" = some "sign_extend" ∧ symName? "rotate_left" = some "rotate_left"
     ∧ symName? "rotate_right" = some "rotate_right" := by decide +kernel
 
-theorem rd_indexed (env : SEnv) (scope : List Sym) (name : String) (hn : symName? name = some name)
+theorem rd_indexed (env : SEnv) (sc : List Binding) (name : String) (hn : symName? name = some name)
     (idx : List Nat) (hidx : idx ≠ []) (args : List Sexp) (as : List TT)
-    (hargs : rdList env (scope.map Binding.var) args = .ok as) :
-    rd env (scope.map Binding.var) (indexed name idx args) = applyIndexed name idx as := by
+    (hargs : rdList env sc args = .ok as) :
+    rd env sc (indexed name idx args) = applyIndexed name idx as := by
   have hemp : idx.isEmpty = false := by cases idx <;> simp_all
   simp [indexed, rd, hargs, applyHead, hn, indices_natAtoms, hemp]
 
 section
-variable (sp : Spell) (hsp : SpellStd sp) (env : SEnv) (scope : List Sym) (hsc : ScopeOK scope)
+variable (sp : Spell) (hsp : SpellStd sp) (env : SEnv) (sc : List Binding) (srt : Bool) (toS : Term → Sexp)
 include hsp
 
 theorem reads_extract (p : Payload) (args : List Term) (τ : Ty)
-    (hargs : ∀ a ∈ args, Reads sp env scope a) (hty : (Term.node .bvExtract args p).typeOf = some τ)
-    (hS : stdTy .bvExtract p (args.map tyD) = some τ) : Reads sp env scope (.node .bvExtract args p) := by
+    (hargs : ∀ a ∈ args, Reads env sc srt toS a) (hty : (Term.node .bvExtract args p).typeOf = some τ)
+    (hS : stdTy .bvExtract p (args.map tyD) = some τ) : NodeReads sp env sc srt toS .bvExtract args p := by
   simp only [stdTy] at hS
   split at hS
   · next ts w lo hi m hts =>
@@ -36,17 +36,16 @@ theorem reads_extract (p : Payload) (args : List Term) (τ : Ty)
     obtain ⟨⟨hlh, hhm⟩, hw⟩ := hc
     obtain ⟨a, rfl, ha⟩ := map_eq_one hts
     subst hS
-    apply reads_of sp env scope _ _ _ hty (unfoldAV_plain _ _ _ (by decide))
-    rw [toSexpWith_node]
+    apply reads_of sp env sc srt toS _ _ _ _ _ hty (unfoldAV_plain srt _ _ _ (by decide))
     simp only [nodeSexp, walkKey, spell sp hsp "walk_bv_extract" "extract" (by decide)]
-    rw [rd_indexed env scope "extract" symName_indexed.1 [hi, lo] (by simp) _ _ (rdList_args sp env scope [a] hargs)]
+    rw [rd_indexed env sc "extract" symName_indexed.1 [hi, lo] (by simp) _ _ (rdList_args env sc srt toS [a] hargs)]
     simp only [List.map, U, ha]
     rw [ai_extract _ m hi lo hlh hhm, hw]
   · simp at hS
 
 theorem reads_rot (op : Op) (hop : op = .bvRol ∨ op = .bvRor) (p : Payload) (args : List Term) (τ : Ty)
-    (hargs : ∀ a ∈ args, Reads sp env scope a) (hty : (Term.node op args p).typeOf = some τ)
-    (hS : stdTy op p (args.map tyD) = some τ) : Reads sp env scope (.node op args p) := by
+    (hargs : ∀ a ∈ args, Reads env sc srt toS a) (hty : (Term.node op args p).typeOf = some τ)
+    (hS : stdTy op p (args.map tyD) = some τ) : NodeReads sp env sc srt toS op args p := by
   rcases hop with rfl | rfl
   · simp only [stdTy] at hS
     split at hS
@@ -56,10 +55,9 @@ theorem reads_rot (op : Op) (hop : op = .bvRol ∨ op = .bvRor) (p : Payload) (a
       simp only [beq_iff_eq] at hc
       obtain ⟨a, rfl, ha⟩ := map_eq_one hts
       subst hS
-      apply reads_of sp env scope _ _ _ hty (unfoldAV_plain _ _ _ (by decide))
-      rw [toSexpWith_node]
+      apply reads_of sp env sc srt toS _ _ _ _ _ hty (unfoldAV_plain srt _ _ _ (by decide))
       simp only [nodeSexp, walkKey, spell sp hsp "walk_bv_rotate:is_bv_rol" "rotate_left" (by decide)]
-      rw [rd_indexed env scope "rotate_left" symName_indexed.2.2.2.1 [k] (by simp) _ _ (rdList_args sp env scope [a] hargs)]
+      rw [rd_indexed env sc "rotate_left" symName_indexed.2.2.2.1 [k] (by simp) _ _ (rdList_args env sc srt toS [a] hargs)]
       simp only [List.map, U, ha]
       rw [ai_rol, hc]
     · simp at hS
@@ -71,17 +69,16 @@ theorem reads_rot (op : Op) (hop : op = .bvRol ∨ op = .bvRor) (p : Payload) (a
       simp only [beq_iff_eq] at hc
       obtain ⟨a, rfl, ha⟩ := map_eq_one hts
       subst hS
-      apply reads_of sp env scope _ _ _ hty (unfoldAV_plain _ _ _ (by decide))
-      rw [toSexpWith_node]
+      apply reads_of sp env sc srt toS _ _ _ _ _ hty (unfoldAV_plain srt _ _ _ (by decide))
       simp only [nodeSexp, walkKey, spell sp hsp "walk_bv_rotate:is_bv_ror" "rotate_right" (by decide)]
-      rw [rd_indexed env scope "rotate_right" symName_indexed.2.2.2.2 [k] (by simp) _ _ (rdList_args sp env scope [a] hargs)]
+      rw [rd_indexed env sc "rotate_right" symName_indexed.2.2.2.2 [k] (by simp) _ _ (rdList_args env sc srt toS [a] hargs)]
       simp only [List.map, U, ha]
       rw [ai_ror, hc]
     · simp at hS
 
 theorem reads_ext (op : Op) (hop : op = .bvZext ∨ op = .bvSext) (p : Payload) (args : List Term) (τ : Ty)
-    (hargs : ∀ a ∈ args, Reads sp env scope a) (hty : (Term.node op args p).typeOf = some τ)
-    (hS : stdTy op p (args.map tyD) = some τ) : Reads sp env scope (.node op args p) := by
+    (hargs : ∀ a ∈ args, Reads env sc srt toS a) (hty : (Term.node op args p).typeOf = some τ)
+    (hS : stdTy op p (args.map tyD) = some τ) : NodeReads sp env sc srt toS op args p := by
   rcases hop with rfl | rfl
   · simp only [stdTy] at hS
     split at hS
@@ -91,10 +88,9 @@ theorem reads_ext (op : Op) (hop : op = .bvZext ∨ op = .bvSext) (p : Payload) 
       simp only [beq_iff_eq] at hc
       obtain ⟨a, rfl, ha⟩ := map_eq_one hts
       subst hS
-      apply reads_of sp env scope _ _ _ hty (unfoldAV_plain _ _ _ (by decide))
-      rw [toSexpWith_node]
+      apply reads_of sp env sc srt toS _ _ _ _ _ hty (unfoldAV_plain srt _ _ _ (by decide))
       simp only [nodeSexp, walkKey, spell sp hsp "walk_bv_extend:is_bv_zext" "zero_extend" (by decide)]
-      rw [rd_indexed env scope "zero_extend" symName_indexed.2.1 [k] (by simp) _ _ (rdList_args sp env scope [a] hargs)]
+      rw [rd_indexed env sc "zero_extend" symName_indexed.2.1 [k] (by simp) _ _ (rdList_args env sc srt toS [a] hargs)]
       simp only [List.map, U, ha]
       rw [ai_zext, hc]
     · simp at hS
@@ -106,10 +102,9 @@ theorem reads_ext (op : Op) (hop : op = .bvZext ∨ op = .bvSext) (p : Payload) 
       simp only [beq_iff_eq] at hc
       obtain ⟨a, rfl, ha⟩ := map_eq_one hts
       subst hS
-      apply reads_of sp env scope _ _ _ hty (unfoldAV_plain _ _ _ (by decide))
-      rw [toSexpWith_node]
+      apply reads_of sp env sc srt toS _ _ _ _ _ hty (unfoldAV_plain srt _ _ _ (by decide))
       simp only [nodeSexp, walkKey, spell sp hsp "walk_bv_extend:is_bv_sext" "sign_extend" (by decide)]
-      rw [rd_indexed env scope "sign_extend" symName_indexed.2.2.1 [k] (by simp) _ _ (rdList_args sp env scope [a] hargs)]
+      rw [rd_indexed env sc "sign_extend" symName_indexed.2.2.1 [k] (by simp) _ _ (rdList_args env sc srt toS [a] hargs)]
       simp only [List.map, U, ha]
       rw [ai_sext, hc]
     · simp at hS
